@@ -78,7 +78,10 @@ def check_merge(case):
                 mid = mido.MidiFile(type=1, tracks=tracks)
                 res = mid.merged_track
             else:
-                res = mido.merge_tracks(tracks, skip_checks=skip)
+                cont = case.get('cont', 'list')
+                arg = {'list': tracks, 'tuple': tuple(tracks), 'gen': (t for t in tracks),
+                       'plain': [list(t) for t in tracks]}[cont]
+                res = mido.merge_tracks(arg, skip_checks=skip)
         except Exception as exc:  # noqa: BLE001
             return [fail('raises', f'skip_checks={skip}: {exc!r}', exc=exc_sig(exc))]
         results[skip] = res
@@ -105,6 +108,21 @@ def check_merge(case):
             break
     if len(results) == 2 and list(results[False]) != list(results[True]):
         out.append(fail('skip-checks-disagree', 'results differ between skip_checks settings'))
+    # merging again after an edit of the inputs reflects the edit (nothing is remembered between calls)
+    edit = case.get('edit')
+    if not out and edit and tracks_d and tracks_d[edit[0] % len(tracks_d)]:
+        ti = edit[0] % len(tracks_d)
+        mi = edit[1] % len(tracks_d[ti])
+        tracks[ti][mi].time = tracks[ti][mi].time + edit[2]
+        edited = [[dict(d) for d in tr] for tr in tracks_d]
+        edited[ti][mi]['time'] += edit[2]
+        want2 = F.merge_model(edited)
+        try:
+            res2 = mido.merge_tracks(tracks)
+            if len(res2) != len(want2) or any(_same_loose(m, d) for m, d in zip(res2, want2)):
+                out.append(fail('stale-merge', f'merge after editing track {ti} message {mi} does not reflect the edit'))
+        except Exception as exc:  # noqa: BLE001
+            out.append(fail('raises', f'second merge: {exc!r}', exc=exc_sig(exc)))
     return out
 
 
@@ -165,7 +183,9 @@ def cases(draw):
         if tail in ('eot-delta', 'two'):
             tr.append(tagged('eot', 0, draw(tm)))
         tracks.append(tr)
-    return {'tracks': tracks, 'entry': draw(st.sampled_from(['merge_tracks', 'merge_tracks', 'merged_track']))}
+    return {'tracks': tracks, 'entry': draw(st.sampled_from(['merge_tracks', 'merge_tracks', 'merged_track'])),
+            'cont': draw(st.sampled_from(['list', 'list', 'tuple', 'gen', 'plain'])),
+            'edit': draw(st.one_of(st.none(), st.tuples(st.integers(0, 4), st.integers(0, 9), st.sampled_from([1, 5, 480])).map(list)))}
 
 
 def hyp_shard(rec, shard):
